@@ -171,6 +171,8 @@ pub fn signed_fixed_to_decimal(num: i128, decimals: u8) -> Option<Decimal> {
 fn rescale_to_mantissa(mut value: rust_decimal::Decimal, decimals: u8) -> crate::Result<i128> {
     use std::cmp::Ordering;
     let decimals = u32::from(decimals);
+    // `rescale` may leave `value` with a scale that `Decimal` cannot display, so report the original value in errors.
+    let original = value;
     value.rescale(decimals);
     let scale = value.scale();
     let mantissa = value.mantissa();
@@ -180,12 +182,12 @@ fn rescale_to_mantissa(mut value: rust_decimal::Decimal, decimals: u8) -> crate:
             .and_then(|m| mantissa.checked_mul(m))
             .ok_or_else(|| {
                 crate::Error::custom(format!(
-                    "`value` is too big: value={value}, decimals={decimals}"
+                    "`value` is too big: value={original}, decimals={decimals}"
                 ))
             }),
         Ordering::Equal => Ok(mantissa),
         Ordering::Greater => Err(crate::Error::custom(format!(
-            "invalid scale: value={value}, decimals={decimals}"
+            "invalid scale: value={original}, decimals={decimals}"
         ))),
     }
 }
